@@ -638,6 +638,7 @@ func main() {
 	}
 	n := r.Pick(4000, 150000)
 	vrun.Parallel(n, 0, func(i int) { runCase(r, genCase(r, i), scratch) })
+	runRootEntryCases(r, scratch)
 	r.Require("mutating_ops_judged", 5000)
 	r.Require("link_classes_in_trees", int64(len(linkClasses)))
 	r.Require("entry_points", 15)
